@@ -5,7 +5,7 @@
    (start, end).  `valid_span s a b` is the declarative notion: a <= b <= |s| and both offsets are
    character boundaries.  For s = encode cs these are exactly the pairs (boff cs i, boff cs j), i <= j. *)
 From Coq Require Import List NArith Arith Bool.
-From PT Require Import Model.Base Model.Lines Model.LinesSpec Model.SpanOps Proofs.SpanProofs Gen.SpanGen Proofs.SpanGenProofs.
+From PT Require Import Model.Base Model.Lines Model.LinesSpec Model.SpanOps Proofs.SpanProofs Gen.SpanGen Proofs.SpanGenProofs Proofs.SpanAlgebra.
 Import ListNotations.
 
 (* Span::new: Some exactly for in-range, ordered, on-boundary pairs (every byte string s) *)
@@ -85,3 +85,47 @@ Print Assumptions C13_merge_sym.
 Theorem C13_eq : forall (same : bool) (a b : span), span_eq same a b = true <-> same = true /\ a = b.
 Proof. exact span_eq_spec. Qed.
 Print Assumptions C13_eq.
+
+(* ---- algebra of the operations (Proofs/SpanAlgebra.v): what a user composing them relies on, as with pest's Span ---- *)
+
+(* a successful get lies inside the span, is a valid span, and its text is that slice of the span's text *)
+Theorem C13_get_sub_text : forall (s : list byte) (a b : nat) (lo hi : bound) (a' b' : nat) (t : list byte),
+  valid_span s a b = true -> bound_ok lo -> bound_ok hi ->
+  span_get s (a, b) lo hi = MOk (Some (a', b')) ->
+  span_as_str s (a, b) = MOk t ->
+  a <= a' /\ a' <= b' /\ b' <= b /\ valid_span s a' b' = true /\
+  span_as_str s (a', b') = MOk (firstn (b' - a') (skipn (a' - a) t)).
+Proof. exact get_sub_text. Qed.
+Print Assumptions C13_get_sub_text.
+
+(* get of a get is the get with added offsets *)
+Theorem C13_get_compose : forall (s : list byte) (a b : nat) (x y u v : N) (sp1 sp2 : span),
+  valid_span s a b = true ->
+  (y < usize_max)%N -> (u <= v)%N -> (v < usize_max)%N -> (x + v < usize_max)%N ->
+  span_get s (a, b) (BIncl x) (BExcl y) = MOk (Some sp1) ->
+  span_get s sp1 (BIncl u) (BExcl v) = MOk (Some sp2) ->
+  span_get s (a, b) (BIncl (x + u)) (BExcl (x + v)) = MOk (Some sp2).
+Proof. exact get_compose. Qed.
+Print Assumptions C13_get_compose.
+
+(* merging adjacent spans gives the span whose text is the concatenation of the two texts *)
+Theorem C13_merge_adjacent_text : forall (s : list byte) (a m b : nat) (ta tb : list byte),
+  valid_span s a m = true -> valid_span s m b = true ->
+  span_as_str s (a, m) = MOk ta -> span_as_str s (m, b) = MOk tb ->
+  SpanOps.merge_spans s (a, m) (m, b) = Some (a, b) /\ span_as_str s (a, b) = MOk (ta ++ tb).
+Proof. exact merge_adjacent_text. Qed.
+Print Assumptions C13_merge_adjacent_text.
+
+Theorem C13_merge_idem : forall (s : list byte) (a b : nat),
+  valid_span s a b = true -> SpanOps.merge_spans s (a, b) (a, b) = Some (a, b).
+Proof. exact merge_idem. Qed.
+Print Assumptions C13_merge_idem.
+
+(* a successful merge is a valid span, contains both arguments, and is the least such pair *)
+Theorem C13_merge_is_hull : forall (s : list byte) (a1 a2 b1 b2 m1 m2 : nat),
+  valid_span s a1 a2 = true -> valid_span s b1 b2 = true ->
+  SpanOps.merge_spans s (a1, a2) (b1, b2) = Some (m1, m2) ->
+  valid_span s m1 m2 = true /\ m1 <= a1 /\ m1 <= b1 /\ a2 <= m2 /\ b2 <= m2 /\
+  (forall c1 c2, c1 <= a1 -> c1 <= b1 -> a2 <= c2 -> b2 <= c2 -> c1 <= m1 /\ m2 <= c2).
+Proof. exact merge_is_hull. Qed.
+Print Assumptions C13_merge_is_hull.
